@@ -236,6 +236,22 @@ CHECKS = {
         technique="TLA+ generator automaton with reference entries + cache history model (TLC); dumped profiles and histories replayed on the real object",
         design="4/C11",
     ),
+    "C13": dict(
+        specs=["FromConfigR.tla", "FromConfig.tla", "FromConfigIO.tla", "StructuredR.tla", "ProfileProd.tla", "ProfileTrace.tla"],
+        text="FromConfigR.Entries maps an abstract configuration to the statements its generated profile must contain (top-level "
+        "options, URIs, verbs, static headers/parameters, byte-exact client transform steps per BUILD block, the server output "
+        "as the reverse of the recover program with length-only arguments, process-inject options / transforms / execute list, "
+        "DNS and stage options, BeaconGate groups). FromConfig.tla checks with TLC that for every configuration of the menu "
+        "these entries are expressible in the documented language (ProfileProd) and every data-transform block ends with one "
+        "termination. TLC computes the entries for every subset of a 14-group menu (quick: singles, pairs, full, full minus "
+        "one) and for random configurations supplied by the harness; each configuration is encoded independently, run through "
+        "BeaconConfig -> from_beacon_config -> as_text -> from_text -> as_dict in two setting orders and compared; the text "
+        "must have no empty block and be accepted by ProfileTrace; sample beacons' text settings must read back exactly.",
+        note="Trusted: TLC, FromConfigR, ProfileProd, ref/tlv.py. URI separator, placeholder bytes, 0/1 vs false/true are left open; "
+        "statements beyond the listed settings are not judged.",
+        technique="TLA+ reference mapping checked against the language by TLC; TLC-computed expectations replayed through generate/print/parse; text trace-validated by TLC",
+        design="4/C13",
+    ),
 }
 
 NOT_YET = "check not built yet in this round; planned in DESIGN.md section 4"
